@@ -782,6 +782,12 @@ fn lean_opd_tokens(rng: &mut Rng, depth: u32, out: &mut Vec<String>) {
         out.push(crate::model::hex(rng.pick(PHR).as_bytes()));
         return;
     }
+    if depth > 0 && rng.chance(1, 8) {
+        out.push("n".into());
+        out.push(rng.below(3).to_string());
+        lean_opd_tokens(rng, depth - 1, out);
+        return;
+    }
     if depth == 0 || rng.chance(3, 5) {
         out.push("w".into());
         out.push(crate::model::hex(rng.pick(VOC).as_bytes()));
